@@ -40,7 +40,7 @@ ASSUMPTIONS = [
 ]
 CASES = {'quick': 110000, 'thorough': 2000000}
 TIME = {'quick': 70, 'thorough': 560}
-MIN_NONTRIVIAL = {'quick': 5000, 'thorough': 20000}
+MIN_NONTRIVIAL = {'quick': 3000, 'thorough': 12000}
 REQUIRED = ('inputs', 'no_hand_cases', 'omaha_inputs', 'greek_inputs',
             'badugi_inputs', 'low_inputs', 'iterator_inputs',
             'state_hands_checked', 'resplit_inputs', 'sibling_class_inputs')
